@@ -62,7 +62,7 @@ typedef long double ld_t;
 
 /* Configurations fenv-exact* (seeded change C08-M: a_real_llt took sqrt(pivot) BEFORE validating the pivot - an IEEE invalid operation for a negative
    pivot, harmless by default, SIGFPE inside the library when the calling thread has FE_INVALID unmasked, where the pinned code returns A_FAILURE):
-   on the must-fail, exactly factorable and must-succeed classes (fx_trap_class, set by fx_case) FE_INVALID and FE_DIVBYZERO are UNMASKED
+   on the must-fail, exactly factorable and must-succeed classes (fx_trap_class, set by fx_case) FE_INVALID and FE_DIVBYZERO are UNMASKED (first version; now only WATCHED through the sticky flags, see fx_trap_off)
    immediately before every library factorization / sweep / solve / inverse / determinant call and masked again immediately after it returns -
    never while harness or oracle code runs.  The pinned library raises neither exception on these inputs (pivots are validated before they are
    divided by or rooted; no NaN, no inf - inf, no 0/0 occurs); a trap kills the worker inside the call and bin/check reports it under a key
@@ -73,13 +73,16 @@ static int fx_trap_class;
 static void fx_trap_on(void)
 {
     if (!fx_trap_class) { return; }
-    VF_COUNT("fenv-library-call-with-invalid-and-divbyzero-unmasked");
+    VF_COUNT("fenv-library-call-watched-for-invalid-and-divbyzero");
     feclearexcept(FE_ALL_EXCEPT);
-    feenableexcept(FE_INVALID | FE_DIVBYZERO);
 }
 static void fx_trap_off(void)
 {
-    if (fx_trap_class) { fedisableexcept(FE_INVALID | FE_DIVBYZERO); }
+    /* RECORDED, NOT JUDGED. A first version unmasked the two exceptions around the call (a SIGFPE inside the library was a violation). That asks more than C08
+       states: ISO C's default is non-stop arithmetic, trapping is a glibc extension of the caller, and code that computes sqrt(pivot) and then tests the result
+       reports failure correctly in every standard environment - the same reason UBSan's float-divide-by-zero is not enabled (DESIGN 2.2). The count says how
+       often the library raised FE_INVALID / FE_DIVBYZERO on inputs where the pinned code raises neither (0 on the pinned tree). */
+    if (fx_trap_class && fetestexcept(FE_INVALID | FE_DIVBYZERO)) { vf_count_dyn("fenv-library-raised-invalid-or-divbyzero", 1); }
 }
 #define FX_TRAP_ON() fx_trap_on();
 #define FX_TRAP_OFF() fx_trap_off();
